@@ -314,6 +314,14 @@ func (f *SnapFileWrap) Seek(off int64, whence int) (int64, error) {
 }
 
 func (f *SnapFileWrap) Close() error {
+	if f.writing && !f.closed {
+		// The process may die inside Close right after the rename made the snapshot visible:
+		// it is then on the disk (and will be restored and forwarded after the restart) although
+		// the observation below never happens. Its bytes are registered as "a snapshot this node
+		// may have" beforehand; a locally taken one also gives the node the F1 signature if it
+		// holds operations beyond its label.
+		f.rec.snapClosing(f.inc, f)
+	}
 	err := f.inner.Close()
 	if simrt.Dead() {
 		return err
